@@ -50,10 +50,17 @@ SIM_TIME = _SimTime()
 
 async def sim_run_in_subprocess(location, command, capture_output, timeout):
     """Replacement of streamflow.core.utils.run_in_subprocess: the command runs for real,
-    synchronously, at a simulator-chosen instant (nothing else runs meanwhile)."""
+    synchronously, at a simulator-chosen instant (nothing else runs meanwhile); how long it
+    "takes" is virtual time chosen by the check (sim.info["subprocess_model"]), against which the
+    caller's timeout races exactly as asyncio.wait_for(proc.communicate(), timeout) does."""
+    import asyncio
+
+    from . import simproc
+
     sim = core.CURRENT
     argv = shlex.split(" ".join(command))
     if sim is not None:
+        argv = simproc.real_argv(argv, sim)
         await sim.io("proc", getattr(location, "name", None))
     p = subprocess.run(
         argv,
@@ -64,6 +71,10 @@ async def sim_run_in_subprocess(location, command, capture_output, timeout):
     )
     if sim is not None:
         sim.probes["seam.subprocess"] += 1
+        model = sim.info.get("subprocess_model")
+        dur = model(argv, p) if model else 0.0
+        if dur:
+            await asyncio.wait_for(asyncio.sleep(dur), timeout=timeout)
         await sim.io("proc.done", getattr(location, "name", None))
     if capture_output:
         return p.stdout.decode().strip(), p.returncode
@@ -124,6 +135,12 @@ def install():
     import streamflow.core.utils as cu
 
     cu.run_in_subprocess = sim_run_in_subprocess
+
+    import asyncio
+
+    from . import simproc
+
+    asyncio.create_subprocess_exec = simproc.sim_create_subprocess_exec
 
     import streamflow.workflow.executor as ex
 
